@@ -259,6 +259,21 @@ def r3_build(run, F):
                         ok = True
     run.ob("R3-SKIP-COUNT", "num_skipped_nodes += end + 1 - i", ok, F.where(b),
            "the skipped range is i..=end, so the count must grow by end + 1 - i")
+    # .. and the index jumps to exactly the `end` that was counted: in the StartPrivateZone arm the value assigned to the index has one
+    # definition (it is not moved on after the count was taken; hopping over a second, adjacent zone without counting it leaves every later
+    # reference rebased by too little)
+    zarms = [a for a in m["arms"] if any(hirq.pat_key(alt).endswith("StartPrivateZone") for alt in hirq.pat_alts(a["pat"]))]
+    jumps = []
+    for a in zarms:
+        for n in walk(a["body"]):
+            if n.get("k") == "Assign" and hirq.unwrap_trivial(n["lhs"]).get("lid") in idx_lids:
+                r = hirq.unwrap_trivial(n["rhs"])
+                if r.get("k") == "Path" and r.get("rk") == "Local":
+                    defs = [x for x in walk(a["body"]) if (x.get("k") == "Let" and hirq.strip_ref(x["pat"]).get("lid") == r.get("lid")) or
+                            (x.get("k") in ("Assign", "AssignOp") and hirq.unwrap_trivial(x["lhs"]).get("lid") == r.get("lid"))]
+                    jumps.append((n, len(defs)))
+    run.ob("R3-SKIP-COUNT", "the index jumps to the end that was counted", len(jumps) == 1 and jumps[0][1] == 1, F.where(b, jumps[0][0]) if jumps else F.where(b),
+           "in the StartPrivateZone arm the local assigned to the index is defined once (%s definition(s)): the jump and the skip count use the same zone end" % [j[1] for j in jumps])
     # build_header: declarations recomputed with is_declaration on the *new* nodes
     bh = F.body(PT + "ParseTree::build_header")
     cs = [hirq.callee(c) for c in hirq.calls(bh["hir"])]
